@@ -115,7 +115,9 @@ def check(ctx: Ctx) -> str:
             ok = True
     ctx.check(ok, "set:capacity-test", "utils:LRUCache.__setitem__", "capacity test", f"eviction is triggered by {[ast.unparse(t) for t in tests]}, expected len(self._mapping) == / >= self.capacity (cache may exceed its capacity or evict early)", f"src/jinja2/utils.py:{si.lineno}",
               detail={"tests": [ast.unparse(t) for t in tests]})
-    ev = [n for n in ast.walk(si) if isinstance(n, ast.Delete) and "self._mapping[" in ast.unparse(n)]
+    from ..normalize import norm as _norm
+
+    ev = [n for n in ast.walk(_norm(si)) if isinstance(n, ast.Delete) and "self._mapping[" in ast.unparse(n)]  # a local naming the evicted key is inlined
     evok = bool(ev) and any(("_popleft" in ast.unparse(e) or "popleft()" in ast.unparse(e)) for e in ev)
     ctx.check(evok, "set:evict-oldest", "utils:LRUCache.__setitem__", "evict from the left", "eviction no longer deletes the mapping entry of the key popped from the left (oldest) end of the queue", f"src/jinja2/utils.py:{si.lineno}")
     if ev and tests:
